@@ -3,13 +3,15 @@
 package main
 
 import (
+	"flag"
 	"fmt"
+	"io"
 	"net"
-	"net/netip"
 	"sort"
 	"strings"
 
 	"github.com/gofiber/fiber/v3"
+	"github.com/gofiber/fiber/v3/log"
 	"github.com/valyala/fasthttp"
 
 	"verifmc/core"
@@ -94,57 +96,6 @@ func headerSets(max int) [][]hdr {
 	return out
 }
 
-// refTrusted is the reference trust predicate written from the statement.
-func refTrusted(c cfg, peer string) bool {
-	if !c.Trust {
-		return true // documented: without TrustProxy every peer is believed
-	}
-	a, err := netip.ParseAddr(peer)
-	if err != nil {
-		return false
-	}
-	a = a.Unmap()
-	if c.Loopback && a.IsLoopback() {
-		return true
-	}
-	if c.Private && a.IsPrivate() {
-		return true
-	}
-	if c.LinkLocal && a.IsLinkLocalUnicast() {
-		return true
-	}
-	for _, p := range c.Proxies {
-		if strings.Contains(p, "/") {
-			if pf, err := netip.ParsePrefix(p); err == nil {
-				if pf.Masked().Contains(a) || (pf.Addr().Is4In6() && pf.Contains(a)) {
-					return true
-				}
-			}
-			continue
-		}
-		if pa, err := netip.ParseAddr(p); err == nil && pa.Unmap() == a {
-			return true
-		}
-	}
-	return false
-}
-
-// refWhy names the first configuration element that puts the peer inside the proxy set.
-func refWhy(c cfg, peer string) string {
-	one := c
-	one.Proxies = nil
-	if refTrusted(one, peer) {
-		return "class-flag"
-	}
-	for _, p := range c.Proxies {
-		one.Proxies = []string{p}
-		if refTrusted(one, peer) {
-			return "entry:" + p
-		}
-	}
-	return "?"
-}
-
 func observe(c fiber.Ctx) obs {
 	return obs{
 		IP: c.IP(), Host: c.Host(), Hostname: c.Hostname(), Scheme: c.Scheme(), BaseURL: c.BaseURL(),
@@ -152,34 +103,83 @@ func observe(c fiber.Ctx) obs {
 	}
 }
 
-func firstElem(v string) string {
-	if i := strings.Index(v, ","); i != -1 {
-		return v[:i]
-	}
-	return v
+// sut is one app built from a cfg plus a reusable RequestCtx; call() serves one request and
+// returns what the handler observed.  A panic inside an accessor is reported, not fatal.
+type sut struct {
+	c    cfg
+	h    fasthttp.RequestHandler
+	got  obs
+	fctx fasthttp.RequestCtx
 }
 
-func hget(hs []hdr, name string) (string, bool) {
-	for _, h := range hs {
-		if h.K == name {
-			return h.V, true
+func newSUT(c cfg) *sut { return newSUTFrom(fiberConfig(c), c) }
+
+func newSUTFrom(fc fiber.Config, c cfg) *sut {
+	s := &sut{c: c}
+	app := fiber.New(fc)
+	app.Get("/", func(ctx fiber.Ctx) error { s.got = observe(ctx); return nil })
+	s.h = app.Handler()
+	return s
+}
+
+func (s *sut) call(req *fasthttp.Request, addr net.Addr, tls bool) (o obs, panicked any) {
+	s.got = obs{}
+	defer func() {
+		if p := recover(); p != nil {
+			panicked = p
 		}
-	}
-	return "", false
+		o = s.got
+	}()
+	fx.CallInto(&s.fctx, s.h, req, addr, tls)
+	return
 }
 
-func hnames(hs []hdr) string {
-	var n []string
-	for _, h := range hs {
-		n = append(n, h.K)
-	}
-	return strings.Join(n, "+")
-}
-
-func validIP(s string) bool { _, err := netip.ParseAddr(s); return err == nil }
+const target = "http://app.example.com:8080/"
 
 func main() {
+	only := flag.String("family", "", "debug: run only these families (comma separated subset of P,T,D,V)")
 	r := core.Start("C10")
+	log.SetOutput(io.Discard) // fiber warns about every unparsable Proxies entry
+	want := func(f string) bool { return *only == "" || strings.Contains(","+*only+",", ","+f+",") }
+	bounds := map[string]any{}
+	var rules []string
+	if want("P") {
+		rules = append(rules, familyProduct(r, bounds))
+	}
+	if want("T") {
+		rules = append(rules, familyTrust(r, bounds))
+	}
+	if want("D") {
+		rules = append(rules, familyDerived(r, bounds))
+	}
+	if want("V") {
+		rules = append(rules, familyValues(r, bounds))
+	}
+	foldHeaderLabels(r)
+	foldManySignatures(r, 12)
+	cov := map[string]any{
+		"evaluations":         r.P.Counters["evaluations"],
+		"distinct_nontrivial": r.P.Counters["nontrivial"],
+		"rule":                strings.Join(rules, " || "),
+		"bounds":              bounds,
+	}
+	for _, k := range []string{"evaluations_P", "evaluations_T", "evaluations_V", "evaluations_D", "peers_listed_by_previous_app_only_D", "trust_decisions_T", "trusted_T", "untrusted_T",
+		"distinct_values_V", "unspecified_skipped"} {
+		cov[k] = r.P.Counters[k]
+	}
+	ev := core.Evidence{
+		Level:      "exploration",
+		Exhaustive: true,
+		Coverage:   cov,
+		Assumptions: []string{"handler-level drive (app.Handler() on a fake conn carrying peer address and TLS flag); fasthttp header parsing is not re-checked here",
+			"when several scheme headers are present the winner is unspecified by the docs and only membership is checked",
+			"unspecified (counted, judged only for validity and Secure<=>https): peers that are not TCP addresses, IPv4 peers against IPv6 ranges that cover the mapped form without being mapped-only (::/0), proxy-header lists with an empty element or a parser-dependent element (zone, dotted quad in IPv6, tab) before the first plainly valid address, scheme/host values with blanks, other letter case or empty"},
+	}
+	r.Finish(ev)
+}
+
+// familyProduct (P): peers x TLS x proxy configurations x forwarding-header subsets.
+func familyProduct(r *core.Run, bounds map[string]any) string {
 	maxHdr, maxProxies := 2, 2
 	if !r.Quick() {
 		maxHdr = 3
@@ -206,176 +206,131 @@ func main() {
 	}
 	r.Parallel(len(cfgs), func(ci int, l *core.Local) {
 		c := cfgs[ci]
-		var got obs
-		app := fiber.New(fiber.Config{
-			TrustProxy:         c.Trust,
-			TrustProxyConfig:   fiber.TrustProxyConfig{Proxies: c.Proxies, Loopback: c.Loopback, Private: c.Private, LinkLocal: c.LinkLocal},
-			ProxyHeader:        c.Header,
-			EnableIPValidation: c.Validation,
-		})
-		app.Get("/", func(ctx fiber.Ctx) error { got = observe(ctx); return nil })
-		h := app.Handler()
-		var fctx fasthttp.RequestCtx
+		s := newSUT(c)
 		for _, peer := range peers {
-			want := refTrusted(c, peer)
-			peerIP := net.ParseIP(peer)
-			addr := &net.TCPAddr{IP: peerIP, Port: 5555}
+			w := no
+			if refTrusted(c, peer) {
+				w = yes
+			}
+			addr := &net.TCPAddr{IP: net.ParseIP(peer), Port: 5555}
 			for _, tls := range []bool{false, true} {
-				base := fx.Req("GET", "http://app.example.com:8080/")
-				fx.CallInto(&fctx, h, base, addr, tls)
-				plain := got
+				plain, pp := s.call(fx.Req("GET", target), addr, tls)
 				for _, hs := range hsets {
-					req := fx.Req("GET", "http://app.example.com:8080/")
+					req := fx.Req("GET", target)
 					for _, hh := range hs {
 						req.Header.Set(hh.K, hh.V)
 					}
-					got = obs{}
-					fx.CallInto(&fctx, h, req, addr, tls)
-					o := got
+					o, p := s.call(req, addr, tls)
 					l.Add("evaluations", 1)
+					l.Add("evaluations_P", 1)
 					if len(hs) > 0 {
 						l.Add("nontrivial", 1)
 					}
-					cs := map[string]any{"config": c, "peer": peer, "tls": tls, "headers": hs}
+					cs := map[string]any{"family": "P", "config": c, "peer": peer, "tls": tls, "headers": hs}
+					if p != nil || pp != nil {
+						l.Violate("accessor-panicked family=P", "an accessor panicked", cs, fmt.Sprint(p, pp), nil)
+						continue
+					}
 					if len(hs) > 0 && ci%97 == 0 && peer == "10.0.0.1" && !tls && len(hs) == maxHdr {
 						l.Sample(map[string]any{"case": cs, "observed": o})
 					}
 					l.Outcome(fmt.Sprintf("trusted=%v ipFromHdr=%v hostFromHdr=%v scheme=%s secure=%v", o.Trusted, o.IP != plain.IP, o.Host != plain.Host, o.Scheme, o.Secure))
-					// (d) secure flag <=> scheme https
-					if o.Secure != (o.Scheme == "https") {
-						l.Violate(fmt.Sprintf("secure-flag!=scheme-https tls=%v scheme=%s secure=%v", tls, o.Scheme, o.Secure),
-							"Secure() disagrees with Scheme()==\"https\"", cs, o, nil)
-					}
-					// (c) validation => syntactically valid address
-					if c.Validation && !validIP(o.IP) {
-						l.Violate("validation-on-invalid-ip header="+c.Header, "EnableIPValidation but IP() is not an address", cs, o, nil)
-					}
-					if !want {
-						// (a) non-interference
-						if o != plain {
-							field := diffField(o, plain)
-							l.Violate(fmt.Sprintf("untrusted-peer-influenced field=%s headers=%s", field, hnames(hs)),
-								"forwarding header changed an accessor although the peer is outside the proxy set", cs, o, plain)
-						}
-						continue
-					}
-					// (b) trusted => documented forwarded values
-					if !o.Trusted {
-						l.Violate(fmt.Sprintf("trusted-peer-not-recognised peer=%s via=%s", peer, refWhy(c, peer)),
-							"peer is inside the configured proxy set but IsProxyTrusted() is false", cs, o, nil)
-						continue
-					}
-					if v, ok := hget(hs, "X-Forwarded-Host"); ok && v != "" {
-						if o.Host != firstElem(v) {
-							l.Violate("trusted-host-not-forwarded", "trusted peer: Host() is not the first X-Forwarded-Host element", cs, o, firstElem(v))
-						}
-					} else if o.Host != plain.Host {
-						l.Violate("trusted-host-changed-without-header", "Host() changed without X-Forwarded-Host", cs, o, plain)
-					}
-					if c.Header != "" {
-						v, _ := hget(hs, c.Header)
-						if !c.Validation {
-							if o.IP != v {
-								l.Violate("trusted-ip-not-header-value header="+c.Header, "trusted peer, no validation: IP() must be the proxy header value", cs, o, v)
-							}
-						} else {
-							exp := plain.IP
-							for _, e := range strings.Split(v, ",") {
-								e = strings.TrimSpace(e)
-								if validIP(e) && !strings.Contains(e, "%") {
-									exp = e
-									break
-								}
-							}
-							if o.IP != exp {
-								l.Violate("trusted-ip-not-first-valid header="+c.Header, "trusted peer, validation: IP() must be the first valid address of the proxy header, else the peer", cs, o, exp)
-							}
-						}
-					} else if o.IP != plain.IP {
-						l.Violate("ip-changed-without-proxyheader", "IP() changed although no ProxyHeader is configured", cs, o, plain)
-					}
-					// scheme: judged when at most one scheme header is present
-					var cands []string
-					if v, ok := hget(hs, "X-Forwarded-Proto"); ok {
-						cands = append(cands, firstElem(v))
-					}
-					if v, ok := hget(hs, "X-Forwarded-Protocol"); ok {
-						cands = append(cands, firstElem(v))
-					}
-					if v, ok := hget(hs, "X-Forwarded-Ssl"); ok {
-						if v == "on" {
-							cands = append(cands, "https")
-						} else {
-							cands = append(cands, "http")
-						}
-					}
-					if v, ok := hget(hs, "X-Url-Scheme"); ok {
-						cands = append(cands, v)
-					}
-					switch {
-					case tls:
-						if o.Scheme != "https" {
-							l.Violate("tls-scheme-not-https", "TLS connection must report https", cs, o, "https")
-						}
-					case len(cands) == 0:
-						if o.Scheme != "http" {
-							l.Violate("scheme-changed-without-header", "scheme changed without a scheme header", cs, o, "http")
-						}
-					case len(cands) == 1:
-						if o.Scheme != cands[0] {
-							l.Violate("trusted-scheme-not-forwarded headers="+hnames(hs), "trusted peer: Scheme() is not the forwarded scheme", cs, o, cands[0])
-						}
-					default:
-						ok := o.Scheme == "http"
-						for _, cnd := range cands {
-							ok = ok || o.Scheme == cnd
-						}
-						if !ok {
-							l.Violate("trusted-scheme-from-nowhere", "Scheme() is none of the forwarded candidates", cs, o, cands)
-						}
-						l.Add("unspecified_skipped", 1)
-					}
-					if o.BaseURL != o.Scheme+"://"+o.Host {
-						l.Violate("baseurl-inconsistent", "BaseURL() != Scheme()://Host()", cs, o, nil)
-					}
+					judge(l, c, tls, hs, o, plain, w, cs, jopt{})
 				}
 			}
 		}
 	})
-	ev := core.Evidence{
-		Level:      "exploration",
-		Exhaustive: true,
-		Coverage: map[string]any{
-			"evaluations":         r.P.Counters["evaluations"],
-			"distinct_nontrivial": r.P.Counters["nontrivial"],
-			"rule": fmt.Sprintf("full product: %d configs (TrustProxy x subsets<=%d of %v x Loopback/Private/LinkLocal x ProxyHeader{'',XFF,X-Real-Ip} x EnableIPValidation) x %d peers x TLS{0,1} x %d forwarding-header sets (subsets<=%d of 7 headers x per-header value menus); a case is non-trivial when at least one forwarding header is present; each is compared with the header-less request (paired) and with a netip-based reference trust predicate",
-				len(cfgs), maxProxies, proxyMenu, len(peers), len(hsets), maxHdr),
-			"bounds": map[string]any{"max_headers": maxHdr, "max_proxy_entries": maxProxies, "configs": len(cfgs), "header_sets": len(hsets)},
-		},
-		Assumptions: []string{"handler-level drive (app.Handler() on a fake conn carrying peer address and TLS flag); fasthttp header parsing is not re-checked here",
-			"when several scheme headers are present the winner is unspecified by the docs and only membership is checked"},
-	}
-	r.Finish(ev)
+	bounds["P"] = map[string]any{"max_headers": maxHdr, "max_proxy_entries": maxProxies, "configs": len(cfgs), "header_sets": len(hsets), "peers": len(peers)}
+	return fmt.Sprintf("P: full product: %d configs (TrustProxy x subsets<=%d of %v x Loopback/Private/LinkLocal x ProxyHeader{'',XFF,X-Real-Ip} x EnableIPValidation) x %d peers x TLS{0,1} x %d forwarding-header sets (subsets<=%d of 7 headers x per-header value menus); a case is non-trivial when at least one forwarding header is present; each is compared with the header-less request (paired) and with a netip-based reference trust predicate",
+		len(cfgs), maxProxies, proxyMenu, len(peers), len(hsets), maxHdr)
 }
 
-func diffField(a, b obs) string {
-	switch {
-	case a.IP != b.IP:
-		return "IP"
-	case a.Host != b.Host:
-		return "Host"
-	case a.Hostname != b.Hostname:
-		return "Hostname"
-	case a.Scheme != b.Scheme:
-		return "Scheme"
-	case a.BaseURL != b.BaseURL:
-		return "BaseURL"
-	case a.Secure != b.Secure:
-		return "Secure"
-	case a.Subdomains != b.Subdomains:
-		return "Subdomains"
-	case a.Trusted != b.Trusted:
-		return "IsProxyTrusted"
+// foldHeaderLabels: a family-V violation reported under every ProxyHeader name class is one root
+// cause that does not depend on the name; keep one signature "header=any-name" for it.
+func foldHeaderLabels(r *core.Run) {
+	labels := map[string]bool{}
+	for _, hn := range proxyHeaderNames {
+		labels[hn[2]] = true
 	}
-	return "?"
+	stems := map[string][]string{}
+	for sig := range r.P.Violations {
+		i := strings.Index(sig, " header=")
+		j := strings.Index(sig, " shape=")
+		if i < 0 || j < i {
+			continue
+		}
+		if !labels[sig[i+len(" header="):j]] {
+			continue
+		}
+		stem := sig[:i] + " header=any-name" + sig[j:]
+		stems[stem] = append(stems[stem], sig)
+	}
+	for stem, sigs := range stems {
+		if len(sigs) != len(labels) {
+			continue
+		}
+		sort.Strings(sigs)
+		keep := r.P.Violations[sigs[0]]
+		for _, s := range sigs[1:] {
+			keep.Count += r.P.Violations[s].Count
+		}
+		for _, s := range sigs {
+			delete(r.P.Violations, s)
+		}
+		keep.Signature = stem
+		r.P.Violations[stem] = keep
+	}
+}
+
+// foldManySignatures keeps the number of distinct signatures per violation kind (first token)
+// small: the signatures of this harness are "kind k1=v1 k2=v2 ..." with the qualifiers ordered from
+// the root cause outwards, so when one kind is reported under more than max signatures (one cause
+// showing through many peers / value shapes) the trailing qualifiers are dropped, for all
+// signatures of the kind alike, until at most max remain.  Depends only on the SET of signatures.
+func foldManySignatures(r *core.Run, max int) {
+	groups := map[string][]string{}
+	for sig := range r.P.Violations {
+		groups[strings.SplitN(sig, " ", 2)[0]] = append(groups[strings.SplitN(sig, " ", 2)[0]], sig)
+	}
+	for _, sigs := range groups {
+		if len(sigs) <= max {
+			continue
+		}
+		sort.Strings(sigs)
+		longest := 0
+		for _, s := range sigs {
+			if n := len(strings.Split(s, " ")); n > longest {
+				longest = n
+			}
+		}
+		for cut := longest - 1; cut >= 1; cut-- {
+			trunc := map[string][]string{}
+			for _, s := range sigs {
+				t := strings.Split(s, " ")
+				if len(t) > cut {
+					t = append(t[:cut:cut], "(more-qualifiers-folded)")
+				}
+				k := strings.Join(t, " ")
+				trunc[k] = append(trunc[k], s)
+			}
+			if len(trunc) > max && cut > 1 {
+				continue
+			}
+			for k, members := range trunc {
+				if len(members) == 1 && members[0] == k {
+					continue
+				}
+				keep := r.P.Violations[members[0]]
+				for _, s := range members[1:] {
+					keep.Count += r.P.Violations[s].Count
+				}
+				for _, s := range members {
+					delete(r.P.Violations, s)
+				}
+				keep.Signature = k
+				r.P.Violations[k] = keep
+			}
+			break
+		}
+	}
 }
